@@ -292,11 +292,54 @@ func hostileTarget(name string) any {
 		x := &cycT{}
 		x.Kids = []nextI{x}
 		return x
+	case "iface-ptr-two-hops":
+		// a holds &b, b holds &a
+		var a, b any
+		a, b = &b, &a
+		return &a
+	case "iface-ptrptr-cycle":
+		// v holds &pv, pv is &v
+		var v any
+		pv := &v
+		v = &pv
+		return pv
+	case "iface-ptr-three-hops":
+		var a, b, c any
+		a, b, c = &b, &c, &a
+		return &a
+	case "struct-any-two-hops":
+		x, y := &cycT{}, &cycT{}
+		x.Any, y.Any = y, x
+		return x
 	}
 	return nil
 }
 
 var hostileTargets = []string{"cyclic-iface-target", "cyclic-any-target", "cyclic-kids-target"}
+
+// cyclicTargets: decode targets whose interfaces and pointers form cycles of one, two or three hops.
+var cyclicTargets = []string{"cyclic-iface-target", "cyclic-any-target", "cyclic-kids-target", "iface-ptr-two-hops", "iface-ptrptr-cycle", "iface-ptr-three-hops", "struct-any-two-hops"}
+
+// TestCyclicTargets: ordinary documents decoded into self-referential targets (every call must return).
+func TestCyclicTargets(t *testing.T) {
+	if evid.Shard() != 1%evid.NShards() {
+		return
+	}
+	docs := []string{`1`, `"s"`, `null`, `true`, `{}`, `[]`, `{"Next":{"Next":1}}`, `{"Any":{"Any":[1,{"Any":null}]}}`, `[[1]]`, `{"Kids":[{"Kids":[null]}],"Next":null}`, `{"a":1}`, `[1,2`, ``}
+	n := 0
+	for _, ht := range cyclicTargets {
+		for _, doc := range docs {
+			for _, api := range []string{"Unmarshal", "Decoder", "Parse"} {
+				exec(t, "CyclicTargets", Case{Kind: "decode-hostile", Hostile: ht, Doc: []byte(doc), API: api})
+				n++
+			}
+		}
+		evid.NonTrivial(evid.HashS("cyclic-target", ht))
+	}
+	evid.Eval(n)
+	evid.Label("cyclic-decode-targets")
+	evid.Enumerated("CyclicTargets", 1, 1)
+}
 
 func nanF() float64 { var z float64; return z / z }
 
